@@ -527,18 +527,31 @@ func paramObjs(info *types.Info, fd *ast.FuncDecl) []types.Object {
 	return out
 }
 
+// stopReportOpts adapts checkIterateStopAndReport to another iteration: which call is the
+// iteration (default: a method of the kv field), which fallible calls do not count (error
+// wrappers), and how many must be found.
+type stopReportOpts struct {
+	IsIteration func(c *ast.CallExpr) bool
+	Skip        func(c *ast.CallExpr) bool
+	Min         int
+}
+
 // checkIterateStopAndReport: in the consumer literal passed to kv.Iterate*, every decode
 // error (a) is stored into an outer variable and (b) leads to `return false`; the outer
 // function returns that variable on the path after a successful iteration.
-func checkIterateStopAndReport(r *Reporter, p *Prog, pkg string, fd *ast.FuncDecl, key string) {
+func checkIterateStopAndReport(r *Reporter, p *Prog, pkg string, fd *ast.FuncDecl, key string, opt ...stopReportOpts) {
 	info := p.Pkg(pkg).TypesInfo
+	var so stopReportOpts
+	if len(opt) > 0 {
+		so = opt[0]
+	}
 	// the consumer handed to the store iteration: a function literal, or a method value / named
 	// function whose declaration is in this package
 	var litBody *ast.BlockStmt
 	var litPos token.Pos
 	ast.Inspect(fd.Body, func(n ast.Node) bool {
 		if c, ok := n.(*ast.CallExpr); ok {
-			if se, ok := ast.Unparen(c.Fun).(*ast.SelectorExpr); ok && fieldSel(info, se.X, "kv") {
+			if se, ok := ast.Unparen(c.Fun).(*ast.SelectorExpr); ok && ((so.IsIteration == nil && fieldSel(info, se.X, "kv")) || (so.IsIteration != nil && so.IsIteration(c))) {
 				for _, a := range c.Args {
 					if b, pos := callableBody(p, info, a); b != nil {
 						litBody, litPos = b, pos
@@ -559,7 +572,8 @@ func checkIterateStopAndReport(r *Reporter, p *Prog, pkg string, fd *ast.FuncDec
 	bad := ""
 	for _, c := range lf.Calls(func(c *ast.CallExpr) bool {
 		_, isErr := lastResultIsError(info, c)
-		return isErr
+		// the calls inside a spliced helper are judged themselves, not the helper's call
+		return isErr && (so.Skip == nil || !so.Skip(c)) && lf.regionByCall(c) == nil
 	}) {
 		nDecode++
 		_, fails := lf.ErrEdges(c)
@@ -606,40 +620,21 @@ func checkIterateStopAndReport(r *Reporter, p *Prog, pkg string, fd *ast.FuncDec
 				bad = fmt.Sprintf("%s: a failing decode can leave the consumer without recording the error", p.posStr(c.Pos()))
 				_ = w
 			}
-			if _, found := lf.reach(start, &searchOpts{AvoidNode: func(n ast.Node) bool {
-				switch x := n.(type) {
-				case *ast.ReturnStmt:
-					if len(x.Results) != 1 {
-						return false
-					}
-					id, ok := ast.Unparen(x.Results[0]).(*ast.Ident)
-					return ok && id.Name == "false"
-				case *ast.Ident:
-					// the result `false` of a spliced helper whose call is itself returned by the
-					// consumer (at every level): the consumer returns false on this path
-					if x.Name != "false" {
-						return false
-					}
-					npt, okp := lf.PointOf(x)
-					if !okp || lf.regionOf[npt.B] == nil {
-						return false
-					}
-					for reg := lf.regionOf[npt.B]; reg != nil; reg = reg.parent {
-						rs, isRet := lf.nodeAt(reg.callPt).(*ast.ReturnStmt)
-						if !isRet || len(rs.Results) != 1 || ast.Unparen(rs.Results[0]) != ast.Expr(reg.call) {
-							return false
-						}
-					}
-					return true
-				}
-				return false
+			// ... and the consumer returns false: the literal, or an expression that is false on this
+			// path (`return recorded == nil`, the result of a helper that returned false)
+			fe := fe
+			if w, found := lf.reach(start, &searchOpts{FromEdge: &fe, AvoidRet: func(rs *ast.ReturnStmt, val func(ast.Expr) int8) bool {
+				return len(rs.Results) == 1 && val(rs.Results[0]) < 0
 			}}, func(pt Point, atExit bool) bool { return atExit }); found {
-				bad = fmt.Sprintf("%s: a failing decode does not stop the iteration with `return false`", p.posStr(c.Pos()))
+				bad = fmt.Sprintf("%s: a failing decode does not stop the iteration with `return false` (%s)", p.posStr(c.Pos()), strings.Join(w, " -> "))
 			}
 		}
 	}
 	if nDecode == 0 {
 		bad = "consumer decodes nothing (row vacuous)"
+	}
+	if nDecode < so.Min {
+		bad = fmt.Sprintf("expected at least %d fallible calls in the consumer, found %d", so.Min, nDecode)
 	}
 	if bad == "" {
 		// outer function must return the recorded error on every path that returns after the iteration succeeded
